@@ -105,6 +105,23 @@ default:
 	qn := uint(k0 + 3)
 	fmt.Println("@T@", qu<<3>>1, qu&^0x0f, ^qu, qu|1<<qn, -7>>1, -7/2, -7%3, 7&-8, int64(1)<<(qn+40), 1<<qn == 8, qu>>qn)
 }`},
+	{"composite-literal-index-in-header", `{
+	type qkey struct{ a, b int }
+	qm := map[qkey]int{{1, 2}: 3, {@1@, 0}: 4}
+	if qw, qok := qm[qkey{1, 2}]; qok {
+		fmt.Println("@T@", "hit", qw)
+	}
+	for qi := qm[qkey{1, 2}]; qi < 5; qi++ {
+		fmt.Println("@T@", "loop", qi)
+	}
+	switch qm[qkey{9, 9}] {
+	case 0:
+		fmt.Println("@T@", "zero")
+	}
+	if qs := [][]int{{1}, {2, 3}}; len(qs[[]int{1}[0]]) == 2 {
+		fmt.Println("@T@", "nested", qs[1][[1]int{1}[0]])
+	}
+}`},
 	{"array-of-arrays", `{
 	var qgrid [2][3]int
 	qgrid[1][2] = @1@
